@@ -217,6 +217,55 @@ def make_scratch(prop, widx):
     return d
 
 
+def _batch_worker(args):
+    """runs `mod.check(batch, stats, scratch, 'enumerated')` for a list of batches in this process"""
+    modname, prop, widx, batches, open_keys, collect_all = args
+    import importlib
+    mod = importlib.import_module(modname)
+    stats = Stats()
+    scratch = make_scratch(prop, f"b{widx}")
+    try:
+        for b in batches:
+            todo = [b]
+            while todo:
+                cur = todo.pop()
+                try:
+                    mod.check(cur, stats, scratch, "enumerated")
+                except Fail as f:
+                    if f.key in open_keys or collect_all:
+                        stats.known_hits[f.key] = stats.known_hits.get(f.key, 0) + 1
+                        if f.key not in stats.first_desc or len(f.desc) < len(stats.first_desc[f.key]):
+                            stats.first_desc[f.key] = f.desc
+                    else:
+                        stats.violations.setdefault(f.key, (f.desc, f.replay))
+                    # continue with the rest of the batch: drop the offending cell(s) and retry
+                    bad = f.replay.get("cells") if isinstance(f.replay, dict) else None
+                    if bad and len(bad) == 1 and len(cur) > 1:
+                        rest = [c for c in cur if c != bad[0]]
+                        if len(rest) < len(cur):
+                            todo.append(rest)
+                except Exception:
+                    stats.violations["INFRA:" + modname] = (traceback.format_exc()[-3000:], None)
+    finally:
+        shutil.rmtree(scratch, ignore_errors=True)
+    return stats
+
+
+def run_batches(ctx, modname, batches):
+    """Distributes enumerated batches over NWORKERS processes (deterministic, no randomness)."""
+    jobs = [(modname, ctx.prop, w, batches[w::NWORKERS], frozenset(ctx.open_keys), ctx.collect_all()) for w in range(NWORKERS)]
+    infra = False
+    with multiprocessing.Pool(NWORKERS) as pool:
+        for st in pool.imap_unordered(_batch_worker, jobs):
+            for k in list(st.violations):
+                if k.startswith("INFRA:"):
+                    infra = True
+                    print("infrastructure trouble in a worker:\n" + st.violations[k][0], file=sys.stderr)
+                    del st.violations[k]
+            ctx.merge(st)
+    return infra
+
+
 def hypothesis_search(ctx, modname, total_examples, profiles=("default",)):
     """Fans a Hypothesis search out over NWORKERS processes; merges the results into ctx.
     Returns True if infrastructure trouble was seen."""
